@@ -361,6 +361,51 @@ def nontrivial(line, out):
 LAYOUTS2 = ["C", "F", "T", "S", "O", "N", "R", "E", "F,R", "T,S", "S,N", "F,E", "O,R"]     # 2-D arrays
 LAYOUTS1 = ["C", "S", "O", "N", "R", "E", "S,N", "O,R"]                                       # 1-D arrays
 
+
+# ---- lookup keys that are NOT freshly parsed: one cursor object stepped through all strings with inc(), and strings edited in
+# place; "w[P] is the entry the string P itself looks up" must hold for them as for a fresh string of the same text
+def walk_handle(line):
+    import numpy as np, random as _r
+    from paulie.common.pauli_string_bitarray import PauliString
+    from paulie.application.matrix_decomposition import matrix_decomposition, matrix_decomposition_diagonal
+    try:
+        _, n, sd = line.split(" ")
+        n = int(n); r = _r.Random(f"walk:{n}:{sd}")
+        N = 2 ** n
+        A = np.array([[complex(r.randint(-8, 8) / 4, r.randint(-8, 8) / 4) if r.random() < 0.7 else 0 for _ in range(N)] for _ in range(N)])
+        d = np.array([complex(r.randint(-8, 8) / 4, r.randint(-8, 8) / 4) for _ in range(N)])
+        w, wd, wdg = matrix_decomposition(A), matrix_decomposition_diagonal(d), matrix_decomposition(np.diag(d))
+        S = {"I": np.eye(2, dtype=complex), "X": np.array([[0, 1], [1, 0]], dtype=complex),
+             "Y": np.array([[0, -1j], [1j, 0]]), "Z": np.array([[1, 0], [0, -1]], dtype=complex)}
+        def M(t):
+            m = np.array([[1]], dtype=complex)
+            for ch in t:
+                m = np.kron(m, S[ch])
+            return m
+        cur = PauliString(n=n)
+        for i in range(4 ** n):
+            t = str(cur)
+            exp = np.trace(M(t) @ A) / N
+            got = cur.get_weight_in_matrix(w)
+            if abs(got - exp) > 1e-9:
+                return f"cursor after {i} inc() steps reads {t}: it looks up {got} in the decomposition, tr(M(P)A)/2^n = {exp}"
+            expd = np.trace(M(t) @ np.diag(d)) / N
+            gd, gg = cur.get_weight_in_matrix(wd), cur.get_weight_in_matrix(wdg)
+            if abs(gd - expd) > 1e-9 or abs(gg - expd) > 1e-9:
+                return f"cursor after {i} inc() steps reads {t}: diagonal variant gives {gd}, general one {gg}, tr(M(P)diag d)/2^n = {expd}"
+            if i % 3 == 2 and n >= 1:                     # an in-place edit and back
+                old = t[i % n]
+                cur[i % n] = "Y" if old != "Y" else "Z"
+                t2 = str(cur)
+                g2 = cur.get_weight_in_matrix(w)
+                if abs(g2 - np.trace(M(t2) @ A) / N) > 1e-9 or abs(cur.get_weight_in_matrix(wd) - np.trace(M(t2) @ np.diag(d)) / N) > 1e-9:
+                    return f"string edited in place to {t2} looks up a wrong weight"
+                cur[i % n] = old
+            cur.inc()
+        return "ok"
+    except Exception as e:
+        return exc_name(e)
+
 def build_streams(rng, tier):
     thorough = tier == "thorough"
     h = impl.handle
@@ -556,6 +601,8 @@ def build_streams(rng, tier):
         return orc(l, o)
     return [
         Stream("weight-table", pw, h, oracle_pweights, tag=lambda l, o: "ip=" + l.split(" ")[2]),
+        Stream("lookup-keys-stepped-by-inc-or-edited-in-place", [f"walk {n} {j}" for n in (1, 2, 2, 3, 3) for j in range(3 if tier == "thorough" else 2)],
+               walk_handle, oracle=lambda l, o: None if o == "ok" else o, model=False, tag=lambda l, o: "walk"),
         Stream("corpus", corpus_lines(PID), h, orc, shrink=shrink_line),
         Stream("dyadic-decomposition-n<=4", dec, h, oracle_decomp, nontrivial=nontrivial, shrink=shrink_line, tag=tagk),
         Stream("every-string-as-lookup-key-n<=3", look, h, oracle_dlook, nontrivial=nontrivial, shrink=shrink_line, tag=tagk),
